@@ -275,29 +275,20 @@ def rule_presence(S, res, phases, cs):
             bk = node[0]
             b = fg.bodies[bk]
         bodies = {node[0] for node in comp if node[0] != "F"}
+        from an import option_tests
         for bk in bodies:
             b = fg.bodies[bk]
-            for bi, blk in enumerate(b.blocks):
-                t = blk["t"]
-                if t["k"] != "switch" or bi not in b.live_blocks():
+            for (bi, p, none_t, some_t, via_try) in option_tests(b):
+                ty = p.get("ty", "").lstrip("&")
+                if not ty.startswith("core::option::Option<(bool, polytune::mpc::data_types::Mac)>"):
                     continue
-                for s in blk["s"]:
-                    if s["k"] == "assign" and s["r"]["k"] == "discr" and t["o"]["k"] != "const" and s["p"]["l"] == t["o"]["p"]["l"]:
-                        p = s["r"]["p"]
-                        ty = p.get("ty", "")
-                        if not (ty.startswith("core::option::Option<(bool, polytune::mpc::data_types::Mac)>") or ty.startswith("&core::option::Option<(bool, polytune::mpc::data_types::Mac)>")):
-                            continue
-                        nodes = fg.read_nodes(bk, p)
-                        if not any(x in comp for x in nodes):
-                            continue
-                        n += 1
-                        tm = {v: tb for v, tb in t["ts"]}
-                        none_t = tm.get("0")
-                        if none_t is None:
-                            none_t = t["else"]
-                        okc, _ = edge_fail_closed(b, bi, none_t)
-                        if not okc:
-                            bad.append((b, bi))
+                nodes = fg.read_nodes(bk, p)
+                if not any(x in comp for x in nodes):
+                    continue
+                n += 1
+                okc, _ = edge_fail_closed(b, bi, none_t)
+                if not okc:
+                    bad.append((b, bi))
         inst = "%s|presence" % l
         if bad:
             b, bi = bad[0]
@@ -360,8 +351,27 @@ def rule_every_element(S, res, phases, cs):
                     n += 1
                     # discharged by a dominating fail-closed *equality* test on the length of exactly
                     # that vector (`v.len() != expected => Err`)
-                    from an import root_local
+                    from an import root_local, single_def
                     v = root_local(b, a)
+                    # look through adaptors that keep the number of elements (`v.iter().zip(..)`); an argument that
+                    # is itself the result of a zip is examined at that zip
+                    inner_zip = False
+                    for _ in range(6):
+                        d_ = single_def(b, v) if v is not None else None
+                        if d_ is None or d_[1] != "t":
+                            break
+                        dn = callee_names(d_[2])
+                        dt = dn[-1].rsplit("::", 1)[-1] if dn else ""
+                        if dt == "zip":
+                            inner_zip = True
+                            break
+                        if dt in ("iter", "iter_mut", "into_iter", "copied", "cloned", "enumerate", "rev", "by_ref", "as_slice", "deref") and d_[2]["args"] and d_[2]["args"][0]["k"] != "const":
+                            v = root_local(b, d_[2]["args"][0])
+                            continue
+                        break
+                    if inner_zip:
+                        n -= 1
+                        continue
                     guarded = False
                     for g in cs:
                         if g.bk != c.bk or "LEN" not in g.ing or l not in g.labels:
